@@ -1484,7 +1484,12 @@ class ClientRequest(ClientRequestBase):
             # Force headers to be sent before waiting for 100-continue
             writer.send_headers()
             await writer.drain()
-            await self._continue
+            try:
+                await self._continue
+            except asyncio.CancelledError:
+                # The body was never sent, so the connection can't be reused
+                conn.close()
+                raise
 
         protocol = conn.protocol
         assert protocol is not None
